@@ -27,7 +27,7 @@ import core
 from ser import rat, q
 
 LEAN_MODULE = "Optyx.Props.C09b"
-EXTRA_MODULES = ["Optyx.Props.PinsC09", "Optyx.Props.BuildTie", "Optyx.Props.ClosurePathTie", "Optyx.Props.SymbolicJacTie"]   # transcription anchors (harness/source_pins.py)
+EXTRA_MODULES = ["Optyx.Props.PinsC09", "Optyx.Props.BuildTie", "Optyx.Props.ClosurePathTie", "Optyx.Props.SymbolicJacTie", "Optyx.Props.CompileEntryTie"]   # transcription anchors (harness/source_pins.py)
 THEOREMS = [
     "Optyx.Props.C09b.scipy_inputs_faithful",
     "Optyx.Props.C09b.compiled_pair_faithful",
@@ -55,6 +55,8 @@ THEOREMS = [
     "Optyx.Props.ClosurePathTie.compileJacobian_path",
     "Optyx.Props.SymbolicJacTie.computeJacobian_eq",
     "Optyx.Props.SymbolicJacTie.computeHessian_eq",
+    "Optyx.Props.CompileEntryTie.compileExpression_eq",
+    "Optyx.Props.CompileEntryTie.param_run",
     "Optyx.Props.PinsC09.anchors",
 ]
 ASSUMPTIONS = [
